@@ -82,12 +82,26 @@ def run(c):
             plans.append(dict(per=per, side=side, anchor=anchor, fseed=fseed, layouts=lays,
                               kind=["contrast", "calm"][fi % 2], gamma=[5. / 3., 1.4, 1.0001][fi % 3]))
 
+    # the global time step is the minimum over ALL cells of all subgrids: cold gas at rest with a single hot cell that is
+    # the last cell of a subgrid in the 2x2x2 layout and an interior cell in the others; four steps (the power-of-two time
+    # line lets the step grow only from the third step on)
+    plans.append(dict(per=(1, 1, 1), side=(1.0, 1.0, 1.0), anchor=(0., 0., 0.), fseed=0, kind="hotspot", gamma=5. / 3., steps=4,
+                      layouts=[(2, 2, 2), (1, 1, 4), (3, 1, 1)] if tier == "quick" else must + [(2, 1, 3), (4, 4, 4), (1, 6, 2)]))
+
+    def field(plan):
+        if plan["kind"] != "hotspot":
+            return hydrolib.random_blocks(random.Random(plan["fseed"]), plan["side"], plan["anchor"], plan["kind"])
+        dx = [plan["side"][i] / NCELL[i] for i in range(3)]
+        cx = [plan["anchor"][i] + 0.5 * plan["side"][i] for i in range(3)]
+        hot = [plan["anchor"][i] + (5 + 0.5) * dx[i] for i in range(3)]            # cell (5, 5, 5)
+        return [dict(origin=cx, sides=list(plan["side"]), n=1.0e6, T=10., v=(0., 0., 0.)),
+                dict(origin=hot, sides=[0.9 * d for d in dx], n=1.0e6, T=2.0e4, v=(0., 0., 0.))]
+
     def one(plan, n, nt, tag, seed):
         d = os.path.join(rd, "c10_%s" % tag)
-        frng = random.Random(plan["fseed"])
-        res = hydrolib.run_rhd(exe, d, n, plan["per"], threads=nt, steps=2, ncell=NCELL, seed=seed, jitter=nt > 1,
+        res = hydrolib.run_rhd(exe, d, n, plan["per"], threads=nt, steps=plan.get("steps", 2), ncell=NCELL, seed=seed, jitter=nt > 1,
                                timeout=180, state_file=True, side=plan["side"], anchor=plan["anchor"],
-                               gamma=plan["gamma"], blocks=hydrolib.random_blocks(frng, plan["side"], plan["anchor"], plan["kind"]),
+                               gamma=plan["gamma"], blocks=field(plan),
                                total_time=1.0e3, wall="reflective")
         st = None
         dig = None
